@@ -6,15 +6,20 @@ from common import sh2
 LEVEL = "proof"
 MANIFEST = {
     "technique": "Coq proof over a hand-written Gallina model of the bits package + differential correspondence (extracted OCaml vs Go)",
-    "level_text": "Theorems (coq/c13/C13Theorems.v, 46, no length bound on byte strings or op sequences): the EBSP writer state machine "
+    "level_text": "Theorems (coq/c13/C13Theorems.v, 42 - the C13b ones group related statements -, no length bound on byte strings or op sequences): the EBSP writer state machine "
                   "equals the one-shot escape spec, escape output has no forbidden triple, every 00 00 03 is an inserted escape and every "
                   "inserted byte is required, unescape inverts escape. Exact domain of the 64-bit accumulators: Write(v, n) appends exactly "
                   "the n low bits whenever pending + n <= 64 (every n <= 57 at any alignment, n = 0 appends nothing, up to 64 at a byte "
-                  "boundary), a wider value is masked, never spilled; Read(n) is exact for n <= 57; witnesses show both bounds tight "
-                  "(7 pending bits + Write(1, 58) corrupts the previous value, Read(58) after 7 bits loses its top bit). Exp-Golomb: the "
+                  "boundary), a wider value is masked, never spilled, and for every n <= 64 the only loss is that the topmost "
+                  "pending + n - 64 pending bits become zeros; EBSPReader.Read(n) for every n returns the true value modulo 2^(64 - k), "
+                  "k = bits left pending, with the stream position always right, hence exact whenever n + k <= 64 (every n <= 57); "
+                  "witnesses show both bounds tight (7 pending bits + Write(1, 58) corrupts the previous value, Read(58) after 7 bits "
+                  "loses its top bit). Reader.ReadSigned's 64-bit sign extension is two's complement for every width 1..64 and inverts "
+                  "the writer's masking of a signed value; ReadSignedGolomb's conversions never overflow int. Exp-Golomb: the "
                   "repaired WriteExpGolomb (repo commit 9ec0951) codes every value <= 2^57 - 2 exactly and refuses every larger one with the "
                   "error set and nothing written (before the repair 2^57 - 1 after 7 pending bits silently corrupted the value written "
-                  "before it - theorem C13_ue_bound_refuted on the old model - and the maximal uint looped forever); the reader decodes "
+                  "before it - theorem C13_ue_bound_refuted on the old model - and the maximal uint looped forever: the prefix loop in "
+                  "wrapping uint arithmetic equals the model's loop for every other value and provably never returns for that one); the reader decodes "
                   "every code up to 2^58 - 2; the signed mapping is exact below the bound and differs from the standard's only at "
                   "codeNum 2^64 - 1 (uint wrap, Go returns 0). Round trip over that exact domain (widths <= 57, ue <= 2^57 - 2, se) "
                   "through the error-aware writer + rbsp_trailing_bits, MoreRbspData false there without moving, ReadRbspTrailingBits "
@@ -25,9 +30,9 @@ MANIFEST = {
                   "Reader.Read/ReadFlag/ReadSigned) returns the zero value and leaves error, accumulator and counters untouched; the read "
                   "that fails returns 0 having consumed every input byte, and fails exactly when fewer than n bits are left. Writer / "
                   "FixedSliceWriter.WriteBits+FlushBits round-trip through Reader; FixedSliceWriter capacity / stickiness / byte methods, "
-                  "ByteWriter prefix-at-limit. Only explored (correspondence + search on the real code, not proved): widths 58..70 at "
-                  "arbitrary alignment beyond the two witnesses, Reader.ReadSigned's sign extension (64-bit arithmetic modelled, "
-                  "two's-complement oracle in the search), reads of Exp-Golomb prefixes longer than 57 bits (malformed streams). The model "
+                  "ByteWriter prefix-at-limit. Only explored (correspondence + search on the real code, not proved): widths 65..70, the plain "
+                  "Reader.Read beyond 56 bits (same refill loop without escapes; proved for the EBSP reader), reads of Exp-Golomb "
+                  "prefixes longer than 57 bits (malformed streams). The model "
                   "is tied to /repo on every run by running it (extracted) against the real bits package on exhaustive small byte "
                   "strings, every width 0..70 after every number of pending bits, and random op sequences.",
     "level_note": "Trusted: Coq kernel, extraction (ExtrOcamlBasic), the OCaml/Go glue, and the correspondence being only as good as "
